@@ -234,6 +234,19 @@ void SubprocessSet::SigChldHandler(int signo, siginfo_t* info, void* context) {
   s_sigchld_received = 1;
 }
 
+namespace {
+
+// Removes a blocked signal that is known to be pending from the queue.
+void ConsumePendingSignal(int signum) {
+  sigset_t one;
+  sigemptyset(&one);
+  sigaddset(&one, signum);
+  int taken;
+  sigwait(&one, &taken);
+}
+
+}  // anonymous namespace
+
 void SubprocessSet::HandlePendingInterruption() {
   sigset_t pending;
   sigemptyset(&pending);
@@ -247,6 +260,17 @@ void SubprocessSet::HandlePendingInterruption() {
     interrupted_ = SIGTERM;
   else if (sigismember(&pending, SIGHUP))
     interrupted_ = SIGHUP;
+
+  // A signal seen here stays pending. Unless it is taken off the queue it is
+  // delivered, with its default disposition, as soon as the destructor
+  // unblocks it: ninja would be killed by the signal after cleaning up
+  // instead of exiting with the interrupt status.
+  if (sigismember(&pending, SIGINT))
+    ConsumePendingSignal(SIGINT);
+  if (sigismember(&pending, SIGTERM))
+    ConsumePendingSignal(SIGTERM);
+  if (sigismember(&pending, SIGHUP))
+    ConsumePendingSignal(SIGHUP);
 }
 
 SubprocessSet::SubprocessSet() {
